@@ -2,3 +2,4 @@ import Dalek.Props.C02.Scalar52
 import Dalek.Props.C02.Api
 import Dalek.Props.C02.Scalar29
 import Dalek.Props.C02.Scalar29Composed
+import Dalek.Props.C02.Api29
